@@ -144,6 +144,7 @@ func (x *sealedScn) newSide(name string, sw wrapping.Wrapper) *sealedSide {
 		panic("sealed: backend: " + err.Error())
 	}
 	rec := recstore.New(inner)
+	rec.KeepMsgs = true
 	sd := &sealedSide{name: name, inner: inner, rec: rec, store: rec.Wrap(), sw: sw}
 	x.sides = append(x.sides, sd)
 	return sd
@@ -429,6 +430,23 @@ func (x *sealedScn) inspect() {
 					r.Violation("clear-secret-in-storage:"+sealedTok+".creation_time",
 						fmt.Sprintf("the %s record handed to storage under a wrapper carries the clear creation_time field next to the sealed creation_time_marshaled", sealedTok),
 						x.witness(sealedWitness{Side: sd.name, Record: op.Type + "/" + op.ID, Field: "creation_time", SecretKind: "token-creation-time", StoredHex: hex.EncodeToString(op.Bytes), Detail: "creation_time = " + v.CreationTime.AsTime().UTC().Format(time.RFC3339Nano)}))
+				}
+			}
+			// the object that was handed to storage, as it is now that the call has long returned: a storage that
+			// keeps what it is given (or writes it out later) holds this, so it must not have turned clear
+			if op.Msg != nil {
+				if later, merr := proto.Marshal(op.Msg); merr == nil && !bytes.Equal(later, op.Bytes) {
+					r.Count("objects_handed_to_storage_that_changed_after_the_call:"+op.Type, 1)
+					for _, s := range x.reg {
+						if (s.scope == "" || s.scope == op.Type) && bytes.Contains(later, s.b) && !bytes.Contains(op.Bytes, s.b) {
+							path := sealedFindField(op.Msg.ProtoReflect(), s.b)
+							r.Violation("clear-secret-in-object-handed-to-storage:"+op.Type, fmt.Sprintf("the %s message handed to storage under a storage wrapper was sealed during the call and holds field %s in clear after it returned (the library gave storage an object it goes on using)", op.Type, path),
+								x.witness(sealedWitness{Side: sd.name, Record: op.Type + "/" + op.ID, Field: path, SecretKind: s.kind, SecretHex: hex.EncodeToString(s.b), StoredHex: hex.EncodeToString(later)}))
+							break
+						}
+					}
+				} else if merr == nil {
+					r.Count("objects_handed_to_storage_unchanged_after_the_call", 1)
 				}
 			}
 			for _, s := range x.reg {
@@ -1224,6 +1242,99 @@ func (x *sealedScn) runPooled() {
 	x.roundTrip(sd, clearX)
 }
 
+// runFlaky: the storage wrapper sits behind a key service that fails single calls. With the k-th Encrypt of a
+// Store failing, nothing may reach storage in clear (everything handed to storage is inspected like everywhere
+// else) and a Store that reports success must have stored what loads back equal; with the k-th Decrypt of a Load
+// failing, the Load either fails or returns exactly what was stored - never a record with values still sealed.
+func (x *sealedScn) runFlaky() {
+	r := x.r
+	sc := x.sc
+	fw := &world.FlakyWrapper{Wrapper: world.NewAead("flaky-" + hex.EncodeToString(world.RandBytes(4)))}
+	sd := x.newSide("direct-flaky-wrapper", fw)
+	mk := func() proto.Message {
+		switch sc.Type {
+		case sealedNI:
+			v := x.makeInfo(sc.Prev)
+			x.secretsOfInfo(v)
+			return v
+		case sealedNC:
+			v := x.makeCreds(nodeenrollment.CurrentId, sc.Prev)
+			x.secretsOfCreds(v)
+			return v
+		case sealedRoots:
+			v := x.craftedRoots("noop")
+			x.secretsOfRoots(v)
+			return v
+		case sealedTok:
+			v := &types.ServerLedActivationToken{Id: "tok" + hex.EncodeToString(world.RandBytes(12)), CreationTime: timestamppb.New(time.Now().Add(-time.Duration(1+x.rng.Intn(999_999_000)) * time.Nanosecond))}
+			x.secretOfTokenTime(v.CreationTime)
+			return v
+		}
+		return nil
+	}
+	if mk() == nil {
+		x.failed = "unknown record type " + sc.Type
+		return
+	}
+	x.rtDone = true
+	// ---- Store with a failing Encrypt
+	for k := 1; k <= 4; k++ {
+		X := mk()
+		clear := proto.Clone(X)
+		fw.Arm(0, k)
+		err := x.libStore(sd, X)
+		failures, _, _ := fw.Delivered()
+		fw.Arm(0, 0)
+		if tok, ok := X.(*types.ServerLedActivationToken); ok {
+			clear.(*types.ServerLedActivationToken).CreationTimeMarshaled = tok.CreationTimeMarshaled
+		}
+		typ, id := sealedTypeOf(clear), sealedIDOf(clear)
+		wit := x.witness(sealedWitness{Side: sd.name, Record: typ + "/" + id, Detail: fmt.Sprintf("Encrypt call %d of the Store failed", k)})
+		switch {
+		case failures == 0:
+			// the Store makes fewer than k Encrypt calls: an ordinary store
+			r.Count("flaky:store_not_reached_by_the_fault:"+typ, 1)
+		case err != nil:
+			r.Count("flaky:store_failed_with_failing_encrypt:"+typ, 1)
+			continue
+		default:
+			r.Count("flaky:store_succeeded_although_an_encrypt_failed:"+typ, 1)
+		}
+		if err != nil {
+			x.failed = "Store of a harness-built " + typ + " under an unarmed flaky wrapper failed: " + err.Error()
+			return
+		}
+		// reported success: it loads back equal (a value that could not be sealed was not dropped or mangled)
+		got, lerr := sealedLibLoad(x.ctx, sd.inner, typ, id, nodeenrollment.WithStorageWrapper(fw))
+		if lerr != nil || !proto.Equal(got, clear) {
+			r.Violation("flaky-wrapper:stored-record-does-not-load-back:"+typ, fmt.Sprintf("a %s Store reported success (failing Encrypt delivered: %v) but the record does not load back equal with the same wrapper: %v %v", typ, failures > 0, lerr, sealedDiff(clear, got)), wit)
+			continue
+		}
+		// ---- Load with a failing Decrypt
+		for d := 1; d <= 4; d++ {
+			fw.Arm(d, 0)
+			got, lerr := sealedLibLoad(x.ctx, sd.inner, typ, id, nodeenrollment.WithStorageWrapper(fw))
+			df, _, _ := fw.Delivered()
+			fw.Arm(0, 0)
+			switch {
+			case lerr != nil && df > 0:
+				r.Count("flaky:load_failed_with_failing_decrypt:"+typ, 1)
+			case lerr != nil:
+				r.Violation("flaky-wrapper:load-failed-without-fault:"+typ, fmt.Sprintf("loading a %s record with the wrapper it was stored with fails although no Decrypt call failed: %v", typ, lerr), wit)
+			case !proto.Equal(got, clear):
+				r.Violation("flaky-wrapper:load-succeeded-with-unopened-values:"+typ, fmt.Sprintf("Decrypt call %d of a %s Load failed and the Load reported success with a record that differs from what was stored in fields %v", d, typ, sealedDiff(clear, got)), wit)
+			case df > 0:
+				r.Count("flaky:load_succeeded_equal_although_a_decrypt_failed:"+typ, 1)
+			default:
+				r.Count("flaky:load_not_reached_by_the_fault:"+typ, 1)
+			}
+		}
+		if sc.Type == sealedRoots {
+			break
+		}
+	}
+}
+
 // ---------------------------------------------------------------------------
 // flow cases
 
@@ -1842,6 +1953,8 @@ func runSealedCase(c *engine.Ctx, sc sealedCase) {
 			x.runNoKeyID()
 		case "pooled":
 			x.runPooled()
+		case "flaky":
+			x.runFlaky()
 		default:
 			x.failed = "unknown case kind " + sc.Kind
 		}
@@ -1921,6 +2034,14 @@ func runSealed(c *engine.Ctx) engine.Result {
 		for _, pv := range []bool{false, true} {
 			for v := 0; v < c.Pick(2, 6); v++ {
 				cases = append(cases, sealedCase{Kind: "pooled", Backend: world.Backends[v%len(world.Backends)], Type: typ, Prev: pv, Bundles: true, State: v%2 == 1, Variant: v})
+			}
+		}
+	}
+	// a key service that fails single calls, each record type
+	for _, typ := range []string{sealedNI, sealedNC, sealedRoots, sealedTok} {
+		for _, pv := range []bool{false, true} {
+			for v := 0; v < c.Pick(1, 4); v++ {
+				cases = append(cases, sealedCase{Kind: "flaky", Backend: world.Backends[v%len(world.Backends)], Type: typ, Prev: pv, Bundles: true, State: v%2 == 1, Variant: v})
 			}
 		}
 	}
